@@ -1,36 +1,11 @@
 (* IIndex/ArgsCheck.v - harness side, DEFINITIONS ONLY, no proofs.
-   Boolean form of the argument condition [HistorySpec.args_ok] (the quantifier of the C06/C07 history
-   theorems), assembled from the boolean twins of IIndex/ArgsOkB.v (each proved sound there) and the three
-   decidable leftovers (append_ok, filtered_ok, collapse_ok).  The harness evaluates it on every generated
-   step to MEASURE how many steps of the correspondence run lie inside the theorems' hypotheses, and which
-   kinds lie outside on purpose (collapsed on a 1-D index -> TypeError, sliced() without arguments, ...).
-   It is evidence only: no verdict depends on it, and Check.v does not import this file, so the
-   correspondence still runs when a proof file in this file's cone is broken. *)
+   Evaluates [HistoryB.args_ok_b] - the boolean form, proved sound there ([args_ok_b_sound]), of the argument
+   condition [HistorySpec.args_ok] that the C06/C07 history theorems quantify over - on every generated step,
+   to MEASURE how many steps of the correspondence run lie inside the theorems' hypotheses and which kinds lie
+   outside on purpose (collapsed on a 1-D index -> TypeError, sliced() without arguments, ...).
+   Evidence only: no verdict depends on it, and Check.v does not import this file, so the correspondence
+   still runs when a proof file in this file's cone is broken. *)
 From Coq Require Import ZArith List Bool.
-From Catii Require Import Base.Cases Base.Sorted IIndex.Model IIndex.Res IIndex.OpsB IIndex.OpsA IIndex.Step
-  IIndex.ArgsOkB IIndex.Check.
-Import ListNotations.
-Open Scope Z_scope.
-
-Definition int_range_b (mn mx : Z) : bool :=
-  (- 2 ^ 63 <=? mn) && (mx <? 2 ^ 64) && (negb (mn <? 0) || (mx <? 2 ^ 63)).
-
-Definition args_ok_b (idx : iindex) (o : op) : bool :=
-  match o with
-  | OShiftAuto | OShift _ | OCopy | OReindexed _ _ => true
-  | OAppend other => wf_b other && zl_eqb (hshape other) (hshape idx) && (nrows idx + nrows other <=? 2 ^ 32)
-  | OUpdate upd => upd_ok_b idx upd
-  | OUnion other => other_ok_b idx other
-  | OInter other | ODiff other => nodup_keys_b (map fst other)
-  | OSetIf k v => set_if_ok_b idx k v
-  | OFiltered mask => Z.of_nat (length mask) =? nrows idx
-  | OCollapsed prec _ =>
-      match hshape idx with [n] => n <? 2 ^ 64 | _ => false end
-      && nodupZ_b prec
-      && match prec with [] => false | p0 :: _ => int_range_b (zmin_list p0 prec) (zmax_list p0 prec) end
-  | OSliced orders => orders_ok_b orders (hshape idx)
-  | OColumnStack pre post _ => cs_args_ok_b (pre ++ idx :: post)
-  | OGetForce _ | OItemsForce | OToDictForce | OCommonRowids _ | OSlices1d => true
-  end.
+From Catii Require Import IIndex.Model IIndex.Step IIndex.HistoryB IIndex.Check.
 
 Definition chk_args (c : scase) : bool := wf_b (s_before c) && args_ok_b (s_before c) (s_op c).
